@@ -559,6 +559,12 @@ def body_obligations(prog, contract, lib=None, contracts=None, config=None, loop
           if key in seen_const:
             continue
           seen_const.add(key)
+        else:
+          # paths that forked AFTER the obligation was emitted carry identical copies (same hypotheses, same goal): prove once
+          k2 = (case.name, kind, name, tuple(t.get_id() for t in pc), goal.get_id() if z3.is_expr(goal) else goal)
+          if k2 in seen_const:
+            continue
+          seen_const.add(k2)
         obls.append(Obligation('%s/%s@%s' % (tag, kind, name), kind, pc, goal, dict(info=info)))
       if oc[0] == 'return':
         seen_outcomes.add('return')
